@@ -20,7 +20,7 @@ RULE = ("downsample: EVERY (n, N) with 1 <= N <= n+2, n <= 400 (quick) / 700 (th
 SLACK = Fraction(1, 2 ** 40)
 
 # every evo function the model Evo.Select mirrors (drift sentinel, see core.drift)
-MODELLED = ["evo/core/trajectory.py:PosePath3D.reduce_to_ids", "evo/core/trajectory.py:PoseTrajectory3D.reduce_to_ids",
+MODELLED = ["evo/common_ape_rpe.py:downsample_or_filter", "evo/core/trajectory.py:PosePath3D.reduce_to_ids", "evo/core/trajectory.py:PoseTrajectory3D.reduce_to_ids",
             "evo/core/trajectory.py:PosePath3D.downsample", "evo/core/trajectory.py:PosePath3D.motion_filter",
             "evo/core/filters.py:filter_by_motion", "evo/core/trajectory.py:PoseTrajectory3D.reduce_to_time_range",
             "evo/core/trajectory.py:PosePath3D._jumps", "evo/core/trajectory.py:PosePath3D.split_distance_gaps",
@@ -228,7 +228,10 @@ def gen_motion(ctx):
             rots = [r.randrange(24) for _ in range(n)]
         d = r.choice([0, 5, 10, 13, 3, 7, 15, 20, 25, 26, 1000]) * scale
         a = r.choice([0, 0, 45, 100, 150, 200, 1000])
-        yield {"kind": "motion", "mode": "grid", "steps": steps, "rots": rots, "d": float(d), "a": float(a), "degrees": True}
+        c = {"kind": "motion", "mode": "grid", "steps": steps, "rots": rots, "d": float(d), "a": float(a), "degrees": True}
+        if r.random() < 0.15:
+            c["helper"] = r.choice([n, n + 1, 10 * n, 100000])
+        yield c
     for _ in range(900 if ctx.thorough else 300):
         n = r.randint(2, 40)
         off = r.choice([0.0, 1e3, 1e6])
@@ -368,6 +371,16 @@ def gen_split(ctx):
                 c["ts"] = ts2[:n]
             if k % 8 == 5:
                 c["flavour"] = r.choice(FLAVOURS)
+            elif k % 8 in (2, 6) and kind != "splitt":
+                # built from positions + quaternions; integer steps incl. diagonal ones (lengths sqrt2, sqrt3, sqrt5 ...):
+                # thresholds between the step lengths, so that a length computed in the positions' dtype shows
+                c["route"] = "xyzq"
+                c["flavour"] = r.choice(["int", "int", "int", "strided", "readonly", "list"])
+                if k % 8 == 6:
+                    c["steps"] = [[float(r.randint(-2, 2)), float(r.randint(-2, 2)), float(r.choice([0, 0, 1]))] for _ in range(max(n - 1, 0))]
+                    c["thr"] = float(r.choice([0.5, 1.2, 1.45, 1.6, 2.1, 2.3, 2.5, 2.9, 3.2]))
+                    if kind == "splits":
+                        c["ts"] = [float(i) for i in range(n)]
             yield c
         else:
             big = ctx.thorough and k % 50 == 4
@@ -621,7 +634,18 @@ def impl_motion(case):
     keep = [p.copy() for p in poses]
     tr = PoseTrajectory3D(poses_se3=poses, timestamps=stamps)
     try:
-        tr.motion_filter(case["d"], case["a"], case["degrees"])
+        if case.get("helper"):
+            # the route evo_ape / evo_rpe take: common_ape_rpe.downsample_or_filter with BOTH options given; the
+            # down-sampling count is >= the number of poses (keeps every pose), so the motion filter alone decides
+            import argparse
+            from evo import common_ape_rpe
+            twin = PoseTrajectory3D(poses_se3=[p.copy() for p in poses], timestamps=stamps.copy())
+            common_ape_rpe.downsample_or_filter(
+                argparse.Namespace(downsample=case["helper"], motion_filter=[case["d"], case["a"]]), tr, twin)
+            if twin.num_poses != tr.num_poses or not np.array_equal(twin.timestamps, tr.timestamps):
+                return {"raised": f"downsample_or_filter treats reference and estimate differently: {tr.num_poses} vs {twin.num_poses} poses"}
+        else:
+            tr.motion_filter(case["d"], case["a"], case["degrees"])
     except FilterException:
         same = tr.num_poses == n and np.array_equal(tr.timestamps, stamps)
         return {"err": "E_FILTER", "unchanged": bool(same)}
@@ -666,9 +690,16 @@ def split_traj(case):
         pos = [[float(k), 1.0, 0.0] for k in range(n)]
     else:
         pos = positions_of(case["steps"][: n - 1], case.get("start", (0.0, 0.0, 0.0)))
-    poses = [se3(rotz_deg(90.0 * (i % 4)) if case.get("flavour") != "shared" else np.eye(3), pos[i]) for i in range(n)]
-    keep = [p.copy() for p in poses]
     f = case.get("flavour")
+    if case.get("route") == "xyzq":
+        # positions + quaternions route: the position array keeps the caller's dtype / layout (int64 on the integer grid)
+        poses = [se3(np.eye(3), pos[i]) for i in range(n)]
+        keep = [p.copy() for p in poses]
+        xyz = flav(np.array(pos, dtype=float).reshape(-1, 3), f)
+        quat = np.tile(np.array([1.0, 0.0, 0.0, 0.0]), (n, 1))
+        return PoseTrajectory3D(positions_xyz=xyz, orientations_quat_wxyz=quat, timestamps=flav_ts(ts, f)), keep, ts
+    poses = [se3(rotz_deg(90.0 * (i % 4)) if f != "shared" else np.eye(3), pos[i]) for i in range(n)]
+    keep = [p.copy() for p in poses]
     return PoseTrajectory3D(poses_se3=flav_poses(poses, f) if f else poses, timestamps=flav_ts(ts, f)), keep, ts
 
 
